@@ -71,7 +71,13 @@ func RunOne(sc *Scenario, seed uint64, o RunOpts) *Outcome {
 			}
 		}
 		out.Violation = &simrt.Violation{Oracle: or, Msg: fmt.Sprintf("panic in task %s: %s\n%s", p.Task, p.Value, p.Stack), Step: s.Steps()}
-	case strings.Contains(s.StalledString(), "main@") && !s.Trunc:
+	case s.SpinHit != "":
+		or := "HARNESS.spin"
+		if ctx != nil && ctx.SpinOracle != "" {
+			or = ctx.SpinOracle
+		}
+		out.Violation = &simrt.Violation{Oracle: or, Msg: "busy-wait detected: " + s.SpinHit + " (sole runnable task for the spin limit of consecutive steps, no timer pending)", Step: s.Steps()}
+	case mainBlocked(s.Stalled) && !s.Trunc:
 		// the scenario's driver never returned: it is blocked inside a library
 		// call that cannot block by contract, and nothing can wake it
 		or := "HARNESS.main-stalled"
@@ -79,12 +85,16 @@ func RunOne(sc *Scenario, seed uint64, o RunOpts) *Outcome {
 			or = ctx.blockedOracle()
 		}
 		out.Violation = &simrt.Violation{Oracle: or, Msg: "the run ended (no runnable task, no timer) while the driver is blocked inside a library call: " + s.StalledString(), Step: s.Steps()}
-	case s.SpinHit != "":
-		or := "HARNESS.spin"
-		if ctx != nil && ctx.SpinOracle != "" {
-			or = ctx.SpinOracle
-		}
-		out.Violation = &simrt.Violation{Oracle: or, Msg: "busy-wait detected: " + s.SpinHit + " (sole runnable task for the spin limit of consecutive steps, no timer pending)", Step: s.Steps()}
 	}
 	return out
+}
+
+// mainBlocked: the scenario's driver is blocked inside a library call (not merely waiting for quiescence).
+func mainBlocked(stalled []string) bool {
+	for _, t := range stalled {
+		if strings.HasPrefix(t, "main@") && !strings.HasSuffix(t, ":quiesce") {
+			return true
+		}
+	}
+	return false
 }
